@@ -40,7 +40,7 @@ type task struct {
 	pending Rep
 	retry   *Req // re-attempt this request when scheduled (lock acquisition races)
 	waitOp  Op
-	waitObj uintptr
+	waitObj uint64
 	waitN   int64
 	tr      transportTask
 }
@@ -107,10 +107,10 @@ type Kernel struct {
 	tasks     []*task // index = id-1
 	cur       *task
 	root      *task
-	mutexes   map[uintptr]*mutexSt
-	wgs       map[uintptr]*wgSt
-	sems      map[uintptr]*semSt
-	objIDs    map[uintptr]int
+	mutexes   map[uint64]*mutexSt
+	wgs       map[uint64]*wgSt
+	sems      map[uint64]*semSt
+	objIDs    map[uint64]int
 	procs     []*proc
 	running   int
 	events    eventHeap
@@ -125,7 +125,7 @@ type Kernel struct {
 	afterRoot bool
 }
 
-func (k *Kernel) oid(o uintptr) int {
+func (k *Kernel) oid(o uint64) int {
 	if id, ok := k.objIDs[o]; ok {
 		return id
 	}
@@ -168,7 +168,7 @@ func (k *Kernel) newTask(name string) *task {
 	return t
 }
 
-func (k *Kernel) block(t *task, op Op, obj uintptr) {
+func (k *Kernel) block(t *task, op Op, obj uint64) {
 	t.state, t.waitOp, t.waitObj = tBlocked, op, obj
 }
 
@@ -377,7 +377,7 @@ func (k *Kernel) handle(t *task, r *Req) {
 	}
 }
 
-func (k *Kernel) mutex(o uintptr) *mutexSt {
+func (k *Kernel) mutex(o uint64) *mutexSt {
 	m := k.mutexes[o]
 	if m == nil {
 		m = &mutexSt{}
@@ -385,7 +385,7 @@ func (k *Kernel) mutex(o uintptr) *mutexSt {
 	}
 	return m
 }
-func (k *Kernel) wg(o uintptr) *wgSt {
+func (k *Kernel) wg(o uint64) *wgSt {
 	w := k.wgs[o]
 	if w == nil {
 		w = &wgSt{}
@@ -393,7 +393,7 @@ func (k *Kernel) wg(o uintptr) *wgSt {
 	}
 	return w
 }
-func (k *Kernel) sem(o uintptr, size int64) *semSt {
+func (k *Kernel) sem(o uint64, size int64) *semSt {
 	s := k.sems[o]
 	if s == nil {
 		s = &semSt{size: size}
@@ -538,8 +538,8 @@ func newKernel(cfg Config) *Kernel {
 		cfg.Epoch = time.Unix(1700000000, 0)
 	}
 	k := &Kernel{cfg: cfg, src: cfg.Src, disk: cfg.Disk,
-		mutexes: map[uintptr]*mutexSt{}, wgs: map[uintptr]*wgSt{}, sems: map[uintptr]*semSt{},
-		objIDs: map[uintptr]int{}, access: map[string]int{}, hash: 1469598103934665603,
+		mutexes: map[uint64]*mutexSt{}, wgs: map[uint64]*wgSt{}, sems: map[uint64]*semSt{},
+		objIDs: map[uint64]int{}, access: map[string]int{}, hash: 1469598103934665603,
 		done: make(chan struct{})}
 	k.res.FaultsFired = map[string]int{}
 	k.res.Probes = map[string]int{}
